@@ -4,7 +4,7 @@ from datetime import timedelta
 
 from .. import runtime, seams
 from ..explore import choice
-from ..sched import layers as LY, oracles as OR
+from ..sched import layers as LY, oracles as OR, scenario as SCN
 from ..sched.scenario import (Scenario, SchedObs, execute, build, BuildRejected, make_resources, make_scheduler, DAY, MON)
 
 LEVEL = 'exploration'
@@ -94,6 +94,10 @@ def evaluate(prop, sc, ex, acc, extra=None, expected=None):
             acc.count('nontrivial')
         if ex.lookups > 50000:
             acc.count('premise:horizon-length-search')
+        return None
+    if ex.status == 'timeout':
+        # like an exception escaping from the library: the property promises a schedule here and calc never came back
+        V('calc-does-not-terminate', '-', 'calc was still running after the watchdog limit')
         return None
     if ex.status != 'ok':
         acc.count('not-scheduled:' + (type(ex.error).__name__ if ex.error is not None else ex.status))
@@ -383,6 +387,10 @@ def _work(chunk):
             run_plain(prop, sc, acc, expected)
         if acc.counters['executions'] and len(acc.samples) < 2 and acc.counters['nontrivial']:
             acc.sample({'layer': lname, 'scenario': sc.to_json()})
+        if SCN.TIMEOUTS:
+            # a calc that does not terminate has been reported; the rest of this chunk would only wait for the watchdog again
+            acc.count('chunks_cut_short_after_watchdog')
+            break
     return acc
 
 
@@ -473,6 +481,9 @@ def c06_one(sc, acc, clock_menu_=None, chooser=None, start_pos=0):
         diff = [i for i, (a, b) in enumerate(zip(before, after)) if a != b]
         V('input-modified', 'raised' if ex.status != 'ok' else 'external-link' if sc.ext else '-',
           f'calc changed the input WBS (entries {diff}; first: {before[diff[0]]} -> {after[diff[0]]})'[:600])
+    if ex.status == 'timeout':
+        V('calc-does-not-terminate', '-', 'calc was still running after the watchdog limit')
+        return None
     if ex.status != 'ok':
         acc.count('not-scheduled:' + (type(ex.error).__name__ if ex.error is not None else ex.status))
         return None
